@@ -1216,7 +1216,7 @@ class BADS:
             )
 
             # Compute mesh size and search mesh size
-            self.mesh_size = self.options["poll_mesh_multiplier"] ** (
+            self.mesh_size = float(self.options["poll_mesh_multiplier"]) ** (
                 self.mesh_size_integer
             )
             self.optim_state["mesh_size"] = self.mesh_size
@@ -1230,7 +1230,7 @@ class BADS:
                 )
 
             self.optim_state["search_mesh_size"] = (
-                self.options["poll_mesh_multiplier"]
+                float(self.options["poll_mesh_multiplier"])
                 ** self.optim_state["search_size_integer"]
             )
             self.search_mesh_size = self.optim_state["search_mesh_size"]
@@ -2281,7 +2281,7 @@ class BADS:
 
         # Update mesh size
         self.mesh_size = (
-            self.options["poll_mesh_multiplier"] ** self.mesh_size_integer
+            float(self.options["poll_mesh_multiplier"]) ** self.mesh_size_integer
         )
         self.optim_state["mesh_size"] = self.mesh_size
 
